@@ -85,9 +85,11 @@ def fam_face(ctx, rng):
         ctx.violation('face3d:centroid:%s' % ('holes' if hs else 'plain'), 'centroid %r expected %r' % (got, c3), desc)
     # the same shape placed by the library's own transforms AFTER it has answered its measures: the placed face is a valid face too,
     # and its measures must be the exact ones of ITS OWN vertices (exact reference recomputed from the placed boundary / holes)
-    which = rng.choice(['move', 'rotate', 'rotate_xy', 'reflect', 'scale'])
+    which = rng.choice(['move', 'rotate', 'rotate_xy', 'reflect', 'scale', 'flip', 'flip'])
     try:
-        if which == 'move':
+        if which == 'flip':
+            placed = face.flip()          # the library's own way of giving the other vertex order
+        elif which == 'move':
             placed = face.move(V3(G.rvec3(rng, 100)))
         elif which == 'rotate':
             placed = face.rotate(V3(G.rvec3(rng, 1)), rng.uniform(-7, 7), P3(G.rpt3(rng, 100)))
